@@ -473,12 +473,14 @@ class State:
         allc = self.defs + self.pc + list(extra)
         if not self.groups:
             return allc
-        occ = {}
+        occ = _VARS_CACHE
+        if len(occ) > 200000:
+            occ.clear()
 
         def vars_of(e):
             i = e.get_id()
             if i in occ:
-                return occ[i]
+                return occ[i][1]
             out = set()
             stack = [e]
             seen = set()
@@ -492,7 +494,7 @@ class State:
                     out.add(xi)
                 else:
                     stack.extend(x.children())
-            occ[i] = out
+            occ[i] = (e, out)
             return out
         gmap = {}
         for gi, (vs, cs) in enumerate(self.groups):
@@ -1441,6 +1443,8 @@ class Executor:
             r = s.check()
             self.count("cut_queries")
             self.cut_log.append((name, visit, str(r), round(time.time() - t0, 2)))
+            if os.environ.get("VERIF_DEBUG_CUTS"):
+                print("CUT", name, visit, r, round(time.time() - t0, 2), flush=True)
             if r != z3.unsat:
                 ok = False
                 st.tags.setdefault("cut_failed", []).append((name, visit, str(r)))
@@ -1483,6 +1487,8 @@ class Executor:
             if not isinstance(fml, bool):
                 st.defs.append(fml)
         st.tags["cut_visits"] = st.tags.get("cut_visits", 0) + 1
+        if cut.assume_after is not None:
+            st.assume_def(cut.assume_after(newvals))
         if cut.mode == "inductive":
             st.tags["cut_pre"] = dict(newvals)
         self.count("cuts")
@@ -1904,8 +1910,15 @@ class Executor:
             return r
         if isinstance(r, _Alts):
             alts = []
-            for cond, val in r.alts:
-                alts.append((cond, lambda s2, val=val, u=fr.uid: self._deliver_alt(s2, u, dest, target, val)))
+            for alt in r.alts:
+                cond, val = alt[0], alt[1]
+                extra = alt[2] if len(alt) > 2 else None
+
+                def fix(s2, val=val, u=fr.uid, extra=extra):
+                    if extra is not None:
+                        extra(s2)
+                    self._deliver_alt(s2, u, dest, target, val)
+                alts.append((cond, fix))
             raise Fork(alts)
         if isinstance(r, _WithDefs):
             self._deliver_alt(st, fr.uid, dest, target, r)
@@ -2015,11 +2028,15 @@ class Executor:
         return out
 
 
+_VARS_CACHE = {}
+
+
 class Cut:
     """loop-invariant cut: havoc = debug names of the loop-carried integer variables, keep = names of variables that are
     read but not modified, invariant(values: name -> term, visit index, state) -> [(label, formula)]"""
 
-    def __init__(self, havoc, keep, invariant, mode="unroll", bb=None, variant=None):
+    def __init__(self, havoc, keep, invariant, mode="unroll", bb=None, variant=None, assume_after=None):
+        self.assume_after = assume_after      # optional formula builder(values) assumed after the havoc (e.g. the loop exit condition)
         self.havoc = list(havoc)
         self.keep = list(keep)
         self.invariant = invariant
